@@ -43,10 +43,14 @@ Record syl_ops (SY : Type) := mkSylOps {
   so_read : SY -> N;
   so_clear : SY -> SY;
   so_remove_last : SY -> SY;
-  so_alt : SY -> N -> list N
+  so_alt : SY -> N -> list N;
+  (* Editor::set_syllable_editor: a fresh (empty) syllable editor of the layout with this number takes the place
+     of the current one (chewing_set_KBType) *)
+  so_switch : SY -> N -> SY
 }.
 Arguments so_key_press {SY}. Arguments so_fuzzy_key_press {SY}. Arguments so_is_empty {SY}.
 Arguments so_read {SY}. Arguments so_clear {SY}. Arguments so_remove_last {SY}. Arguments so_alt {SY}.
+Arguments so_switch {SY}.
 
 Record dict_ops (D : Type) := mkDictOps {
   (* Layered::lookup_all_phrases(syllables, strategy); bool = FuzzyPartialPrefix *)
@@ -995,6 +999,13 @@ Definition ed_learn_c (e : editor') (syllables text : list N) : outcome (editor'
   do r <- ed_learn e syllables text; do e' <- clamp_page (fst r); Ok (e', snd r).
 Definition ed_unlearn_c (e : editor') (syllables text : list N) : outcome editor' :=
   clamp_page (ed_unlearn e syllables text).
+
+(* Editor::set_syllable_editor (chewing_set_KBType / keyboard_type at any moment): the syllable editor is replaced;
+   the alternative readings of the new layout can shorten an open candidate list, so the page index is brought
+   back below the page count (fix b605e90) *)
+Definition ed_set_layout_pinned (e : editor') (L : N) : editor' :=
+  mkEditor (set_syl (sh e) (so_switch sops (syl (sh e)) L)) (st e).
+Definition ed_set_layout (e : editor') (L : N) : outcome editor' := clamp_page (ed_set_layout_pinned e L).
 
 (* observers *)
 Definition ed_all_candidates (e : editor') : outcome (option (list (list N))) :=
